@@ -230,7 +230,9 @@ V("c09-normalize-broken", "C09", ME, [("        minimum = min(max(0, minimum), m
 V("c09-benign-normalize-simplified", "C09", ME, "        minimum = min(max(0, minimum), maximum)", "        minimum = max(0, minimum)", None)
 V("c09-direct-measure-call", "C09", TB, "            _min, _max = get_render_width(console, cell.renderable, max_width)", "            _min, _max = cell.renderable.__rich_measure__(console, max_width)", "R9.2")
 V("c09-column-uncapped", "C09", TB, "            return Measurement(\n                column.width + padding_width, column.width + padding_width\n            ).with_maximum(max_width)", "            return Measurement(\n                column.width + padding_width, column.width + padding_width\n            )", "R9.3")
-V("c09-text-key-len", "C09", TX, "        max_text_width = max(cell_len(line) for line in text.splitlines())", "        max_text_width = cell_len(max(text.splitlines(), key=len))", "R9.4")
+V("c09-text-key-len", "C09", TX, "        max_text_width = max(cell_len(line) for line in text.split(\"\\n\"))", "        max_text_width = cell_len(max(text.split(\"\\n\"), key=len))", "R9.4")
+V("c09-text-measure-splitlines", "C09", TX, "        max_text_width = max(cell_len(line) for line in text.split(\"\\n\"))", "        max_text_width = max(cell_len(line) for line in text.splitlines())", "R9.4")
+V("c09-benign-text-measure-lines-temp", "C09", TX, "        max_text_width = max(cell_len(line) for line in text.split(\"\\n\"))", "        lines = text.split(\"\\n\")\n        max_text_width = max(cell_len(line) for line in lines)", None)
 V("c09-benign-local", "C09", ME, "        _max_width = console.width if max_width is None else max_width\n", "        _max_width = console.width if max_width is None else max_width\n        _limit = _max_width\n", None)
 
 # ---- C14 -----------------------------------------------------------------------
